@@ -119,9 +119,9 @@ def early_returns(ctx, rule):
         def length_of(arg_expr):
             a = S.strip_refs(arg_expr)
             if a == ("arg", 2):
-                return 0 if l0_zero else POS
+                return l0_zero if isinstance(l0_zero, int) and not isinstance(l0_zero, bool) else (0 if l0_zero else POS)
             if a == ("arg", 3):
-                return 0 if l1_zero else POS
+                return l1_zero if isinstance(l1_zero, int) and not isinstance(l1_zero, bool) else (0 if l1_zero else POS)
             return None
 
         def val(op):
@@ -206,16 +206,33 @@ def early_returns(ctx, rule):
                     n_ = length_of(sy.operand(t["args"][0]))
                     v = None if n_ is None else (n_ == 0)
                 else:
-                    return "computed"
+                    nm = (t.get("cn") or "").rsplit("::", 1)[-1]
+                    if nm in ("resize", "clear", "extend", "extend_from_slice", "copy_from_slice", "clone_from_slice", "sort",
+                              "sort_unstable", "dedup", "simple_similarity", "borrow_mut", "reserve", "truncate", "deref_mut", "deref",
+                              "iter", "into_iter", "cloned", "copied", "index_mut", "index", "to_vec"):
+                        return "computed"
+                    return "other call: %s" % nm
                 if v is None or t["dest"]["p"] or t.get("target") is None:
                     return "computed"
                 env[t["dest"]["l"]] = v
                 blk = t["target"]
             elif t["k"] == "return":
                 return "non-const"
+            elif t["k"] in ("assert", "drop") and isinstance(t.get("target"), int):
+                blk = t["target"]
             else:
                 return "computed"
         return "computed"
+    # non-empty inputs of concrete small sizes reach the buffer preparation / merge like any other (no shortcut for one-element
+    # inputs: a singleton against a sequence with repetitions is not 1/len)
+    for (n0, n1) in ((1, 1), (1, 5), (5, 1), (2, 3)):
+        got = walk_to_const(n0, n1)
+        key = "no-shortcut:%d,%d" % (n0, n1)
+        if got == "computed":
+            ctx.ok(rule, key, b.where(), "lengths (%d, %d) go through the set computation" % (n0, n1))
+        else:
+            ctx.fail(rule, key, b.where(), "for lengths (%d, %d) the similarity is decided by a shortcut (%s) instead of the set computation"
+                     % (n0, n1, got), {"witness": "similarity('a', 'aa') must be 1 (one distinct letter on both sides), not 1/2"})
     table = {(True, True): 1.0, (True, False): 0.0, (False, True): 0.0, (False, False): "computed"}
     for (z0, z1), want in table.items():
         got = walk_to_const(z0, z1)
